@@ -486,6 +486,13 @@ func lstatKind(f apkfs.FullFS, p string) (kind string) {
 var dumpUnreliable bool
 
 func dumpTree(f apkfs.FullFS, p string) string {
+	if strings.Count(p, "/") > 24 { // the scripts build at most a few levels
+		if !dumpUnreliable {
+			fmtViolation("memtree-walk-unbounded", map[string]any{"path": p})
+		}
+		dumpUnreliable = true
+		return "(TDir [])"
+	}
 	name := p
 	if name == "" {
 		name = "/"
